@@ -24,6 +24,7 @@ var (
 	flagStats  = flag.String("stats", "", "stats json")
 	flagOnly   = flag.Int("only", -1, "run only this scenario index")
 	flagMode   = flag.String("mode", "", "engine-specific mode / property focus")
+	flagN      = flag.Int("n", 0, "number of scenarios (0 = tier default)")
 )
 
 type tracer struct {
